@@ -104,6 +104,20 @@ def oracle_vs_glibc(ctx, s, pz):
     return ok
 
 
+def directed_triples():
+    """day numbers around 29 February and the month ends in both numbering forms, week 5 = last, daylight time exactly
+    UTC, half-hour and two-hour savings, rule times with minutes and seconds, both hemisphere orders"""
+    out = []
+    autumn = ('M', 10, 5, 0)
+    for form, n in (('N', 58), ('N', 59), ('N', 60), ('J', 59), ('J', 60), ('J', 61), ('N', 89), ('J', 90), ('J', 120), ('N', 119)):
+        out.append(PZ.PosixZone('EST', -18000, 'EDT', -14400, (form, n), 7200, autumn, 7200))
+        out.append(PZ.PosixZone('AEST', 36000, 'AEDT', 39600, autumn, 7200, (form, n), 10800))
+    for save, stdoff in ((1800, 37800), (7200, 0), (3600, -3600), (7200, -7200), (1800, -1800)):
+        out.append(PZ.PosixZone('XST', stdoff, 'XDT', stdoff + save, ('M', 3, 5, 0), 9015, ('M', 10, 5, 6), 11159))
+        out.append(PZ.PosixZone('XST', stdoff, 'XDT', stdoff + save, ('M', 9, 1, 3), 60, ('M', 4, 1, 0), 10800))
+    return out
+
+
 MALFORMED_EDITS = [
     lambda s: s + 'x', lambda s: s + ',', lambda s: s + ',M1.1.1', lambda s: s.rsplit(',', 1)[0] if ',' in s else s + ',,',
     lambda s: s.replace(',M', ',Q', 1), lambda s: s.replace('.', ';', 1), lambda s: s + '/2/3', lambda s: s.replace(',', ',,', 1),
@@ -186,13 +200,22 @@ def run(ctx):
     valid = []
     old = os.environ.get('TZ')
     try:
-        for i in range(N_TRIPLES[ctx.tier]):
+        directed = directed_triples()
+        for i in range(-len(directed), N_TRIPLES[ctx.tier]):
             if i % 5 == 0 and not ctx.time_left():
                 ctx.count('stopped_by_time_budget')
                 break
-            k3dom = 'force' if i % 8 == 5 else rng.random() < .25
-            pz = tzzoo.gen_posix(rng, k3_domain=k3dom)
-            s = PZ.render(pz, with_times=(rng.random() < .7, rng.random() < .7))
+            if i < 0:
+                # boundary rules that every run must see, whatever the seed draws (sharded)
+                if (-i) % ctx.nshards != ctx.shard:
+                    continue
+                pz = directed[-i - 1]
+                s = PZ.render(pz, with_times=(True, True))
+                ctx.count('directed_triples')
+            else:
+                k3dom = 'force' if i % 8 == 5 else rng.random() < .25
+                pz = tzzoo.gen_posix(rng, k3_domain=k3dom)
+                s = PZ.render(pz, with_times=(rng.random() < .7, rng.random() < .7))
             valid.append(s)
             # oracle validation first
             TM.set_process_tz(s)
